@@ -424,4 +424,113 @@ theorem run_refines (os : List Op) : ∀ (s : State), Inv s →
       rw [← hi]
       cases runOps p.1 os <;> rfl
 
+/-! ### cells outside the live window are nil -/
+
+/-- every cell that is not one of the `readable` live entries starting at `readIndex` is nil
+(`Ring.read` removes the references it hands out) -/
+def Clean (s : State) : Prop :=
+  ∀ p, p < s.cap → ¬ touched s.cap s.r s.readable p → s.buf[p]? = some none
+
+theorem bufRead_hit (buf : List Cell) (r len p : Nat) (hp : p < buf.length)
+    (h : touched buf.length r len p) : (bufRead buf r len).1[p]? = some none := by
+  unfold touched at h
+  unfold bufRead copyN
+  dsimp only
+  split
+  · -- wrap-around: cleared by the first or by the second loop
+    by_cases h2 : p < min (buf.length - 0) (len - min (buf.length - r) len)
+    · exact clearAt_hit _ _ _ _ (by rw [length_clearAt]; exact hp) ⟨by omega, by omega⟩
+    · rw [clearAt_miss _ _ _ _ (by omega)]
+      exact clearAt_hit _ _ _ _ hp (by omega)
+  · exact clearAt_hit _ _ _ _ hp (by omega)
+
+theorem clean_newEmpty (count : Nat) : Clean (newEmpty count) := by
+  intro p hp _
+  simp only [newEmpty, State.cap, List.length_replicate] at hp ⊢
+  rw [List.getElem?_replicate]
+  simp [hp]
+
+theorem clean_newFull (es : List Nat) : Clean (newFull es) := by
+  intro p hp hn
+  exfalso
+  simp only [newFull, State.cap, List.length_map] at hp hn
+  apply hn
+  unfold touched
+  omega
+
+theorem write_clean (s : State) (es : List Nat) (b : Bool) (s' : State) (n : Int)
+    (h : write s es b = some (s', n)) (hI : Inv s) (hC : Clean s) : Clean s' := by
+  unfold write at h
+  split at h
+  · split at h
+    · cases h
+    · cases h; exact hC
+  · split at h
+    · cases h; exact hC
+    · cases h
+      obtain ⟨hc, hw, hr, hsum, hwin⟩ := hI
+      unfold State.cap at hc hw hr hsum hwin
+      have hl : (es.take (min s.writable es.length)).length = min s.writable es.length := by
+        rw [List.length_take]; omega
+      have hle : min s.writable es.length ≤ s.writable := Nat.min_le_left _ _
+      intro p hp hn
+      dsimp only [State.cap] at hp hn ⊢
+      rw [length_bufWrite] at hp hn
+      generalize min s.writable es.length = m at *
+      have h1 : ¬ touched s.buf.length s.w (es.take m).length p := by
+        rw [hl]; unfold touched at hn ⊢; omega
+      have h2 : ¬ touched s.buf.length s.r s.readable p := by
+        unfold touched at hn ⊢; omega
+      rw [bufWrite_miss _ _ _ _ h1]
+      exact hC p hp h2
+
+theorem read_clean (s : State) (len : Nat) (b : Bool) (s' : State) (n : Int) (out : List Cell)
+    (h : read s len b = some (s', n, out)) (hI : Inv s) (hC : Clean s) : Clean s' := by
+  unfold read at h
+  split at h
+  · split at h
+    · cases h
+    · cases h; exact hC
+  · split at h
+    · cases h; exact hC
+    · cases h
+      obtain ⟨hc, hw, hr, hsum, hwin⟩ := hI
+      unfold State.cap at hc hw hr hsum hwin
+      have hle : min s.readable len ≤ s.readable := Nat.min_le_left _ _
+      intro p hp hn
+      dsimp only [State.cap] at hp hn ⊢
+      rw [length_bufRead] at hp hn
+      rw [bufRead_idx _ _ _ (by omega)] at hn
+      generalize min s.readable len = m at *
+      by_cases ht : touched s.buf.length s.r m p
+      · exact bufRead_hit _ _ _ _ hp ht
+      · rw [bufRead_miss _ _ _ _ ht]
+        apply hC p hp
+        show ¬ touched s.buf.length s.r s.readable p
+        unfold touched at hn ht ⊢
+        split at hn <;> omega
+
+theorem close_clean (s : State) (hC : Clean s) : Clean (close s) := hC
+
+theorem step_clean (s : State) (o : Op) (s' : State) (out : Out)
+    (h : step s o = some (s', out)) (hI : Inv s) (hC : Clean s) : Clean s' := by
+  cases o with
+  | write es b =>
+    simp only [step] at h
+    cases hw : write s es b with
+    | none => rw [hw] at h; cases h
+    | some p =>
+      rw [hw] at h; cases h
+      exact write_clean s es b p.1 p.2 hw hI hC
+  | read len b =>
+    simp only [step] at h
+    cases hr : read s len b with
+    | none => rw [hr] at h; cases h
+    | some p =>
+      rw [hr] at h; cases h
+      exact read_clean s len b p.1 p.2.1 p.2.2 hr hI hC
+  | close =>
+    simp only [step] at h; cases h
+    exact hC
+
 end Scion.Ring
